@@ -331,6 +331,8 @@ impl CoreInner {
 		// Step 4: Apply changeset atomically
 		// Lock order: level_manifest → immutable_memtables
 		let mut manifest = self.level_manifest.write()?;
+		#[cfg(surrealkv_verif)]
+		crate::verif::yp_held("flush:holding_manifest");
 		let mut memtable_lock = self.immutable_memtables.write()?;
 
 		let rollback = manifest.apply_changeset(&changeset)?;
@@ -411,6 +413,8 @@ impl CoreInner {
 
 		// Set the WAL number on the new (empty) active memtable
 		active_memtable.set_wal_number(new_wal_number);
+		#[cfg(surrealkv_verif)]
+		crate::verif::yp_held("rotate:swapped");
 
 		// LOCK ORDER: Get table_id from manifest BEFORE acquiring immutable_memtables lock.
 		// This maintains consistent ordering: level_manifest -> immutable_memtables
